@@ -19,4 +19,30 @@ SPEC = {
             {"name": "random", "test": "TestC01", "checks": [1500, 15000], "shards": [4, 14], "timeout": [900, 7200]},
         ],
     },
+    "C02": {
+        "level": "exploration",
+        "rule": "C01-style programs in projects with snapshot interval/threshold drawn from 1..6, late attachers, detach/re-attach, "
+                "snapshot-cache purge/remove steps and a tail of further edits made on top of snapshot-fed replicas; oracles: "
+                "replicas agree after each quiescent round, a twin run of the same program in a project that never snapshots "
+                "(pure change replay) ends in the same content, and BuildInternalDocForServerSeq(s) (cold cache) equals a "
+                "from-scratch replay of the stored log prefix for every serverSeq s. non-trivial = >=1 snapshot pull occurred AND "
+                ">=1 remote change was later applied on a snapshot-fed replica; distinct = distinct program hash",
+        "assumptions": ["in-memory database backend", "twin contents compared only when actor ids sort in activation order in both runs (counted as twin_incomparable otherwise)"],
+        "parts": [
+            {"name": "twin", "test": "TestC02", "checks": [700, 8000], "shards": [4, 14], "timeout": [900, 7200]},
+        ],
+    },
+    "C03": {
+        "level": "exploration",
+        "rule": "delete/move/overwrite-biased programs (clients holding unsent edits while peers sync repeatedly, late attachers, "
+                "detach/re-attach, with and without small snapshot thresholds) run twice: garbage collection on (client GC + server GC before "
+                "snapshots) and off (document.WithDisableGC on every replica + SnapshotDisableGC); oracles: no Sync/Attach fails in either run, "
+                "BuildInternalDocForServerSeq succeeds and equals the log replay at every serverSeq, and contents after each quiescent round are "
+                "equal across the two runs. non-trivial = some replica purged >=1 tombstone and later applied a remote change, or a "
+                "snapshot-fed replica (server GC) later applied a remote change; distinct = distinct program hash",
+        "assumptions": ["in-memory database backend", "twin contents compared only when actor ids sort in activation order in both runs"],
+        "parts": [
+            {"name": "twin", "test": "TestC03", "checks": [600, 8000], "shards": [4, 14], "timeout": [900, 7200]},
+        ],
+    },
 }
